@@ -8,127 +8,127 @@ open Util
 
 let skind_name (k : skind) : string =
   match k with
-  | WHITESPACE -> "WHITESPACE"
-  | COMMENT -> "COMMENT"
-  | COMMA -> "COMMA"
-  | ERROR -> "ERROR"
-  | IDENT -> "IDENT"
-  | STRING -> "STRING"
-  | INT -> "INT"
-  | FLOAT -> "FLOAT"
-  | BANG -> "BANG"
-  | DOLLAR -> "DOLLAR"
-  | AMP -> "AMP"
-  | SPREAD -> "SPREAD"
-  | COLON -> "COLON"
-  | EQ -> "EQ"
-  | AT -> "AT"
-  | L_PAREN -> "L_PAREN"
-  | R_PAREN -> "R_PAREN"
-  | L_BRACK -> "L_BRACK"
-  | R_BRACK -> "R_BRACK"
-  | L_CURLY -> "L_CURLY"
-  | R_CURLY -> "R_CURLY"
-  | PIPE -> "PIPE"
-  | Query_KW -> "query_KW"
-  | Mutation_KW -> "mutation_KW"
-  | Subscription_KW -> "subscription_KW"
-  | Fragment_KW -> "fragment_KW"
-  | On_KW -> "on_KW"
-  | Null_KW -> "null_KW"
-  | True_KW -> "true_KW"
-  | False_KW -> "false_KW"
-  | Extend_KW -> "extend_KW"
-  | Schema_KW -> "schema_KW"
-  | Scalar_KW -> "scalar_KW"
-  | Implements_KW -> "implements_KW"
-  | Interface_KW -> "interface_KW"
-  | Union_KW -> "union_KW"
-  | Enum_KW -> "enum_KW"
-  | Input_KW -> "input_KW"
-  | Directive_KW -> "directive_KW"
-  | Type_KW -> "type_KW"
-  | Repeatable_KW -> "repeatable_KW"
-  | QUERY_KW -> "QUERY_KW"
-  | MUTATION_KW -> "MUTATION_KW"
-  | SUBSCRIPTION_KW -> "SUBSCRIPTION_KW"
-  | FIELD_KW -> "FIELD_KW"
-  | FRAGMENT_DEFINITION_KW -> "FRAGMENT_DEFINITION_KW"
-  | FRAGMENT_SPREAD_KW -> "FRAGMENT_SPREAD_KW"
-  | INLINE_FRAGMENT_KW -> "INLINE_FRAGMENT_KW"
-  | VARIABLE_DEFINITION_KW -> "VARIABLE_DEFINITION_KW"
-  | SCHEMA_KW -> "SCHEMA_KW"
-  | SCALAR_KW -> "SCALAR_KW"
-  | OBJECT_KW -> "OBJECT_KW"
-  | FIELD_DEFINITION_KW -> "FIELD_DEFINITION_KW"
-  | ARGUMENT_DEFINITION_KW -> "ARGUMENT_DEFINITION_KW"
-  | INTERFACE_KW -> "INTERFACE_KW"
-  | UNION_KW -> "UNION_KW"
-  | ENUM_KW -> "ENUM_KW"
-  | ENUM_VALUE_KW -> "ENUM_VALUE_KW"
-  | INPUT_OBJECT_KW -> "INPUT_OBJECT_KW"
-  | INPUT_FIELD_DEFINITION_KW -> "INPUT_FIELD_DEFINITION_KW"
-  | DOCUMENT -> "DOCUMENT"
-  | OPERATION_DEFINITION -> "OPERATION_DEFINITION"
-  | OPERATION_TYPE -> "OPERATION_TYPE"
-  | SELECTION_SET -> "SELECTION_SET"
-  | FIELD -> "FIELD"
-  | ALIAS -> "ALIAS"
-  | NAME -> "NAME"
-  | ARGUMENTS -> "ARGUMENTS"
-  | ARGUMENT -> "ARGUMENT"
-  | FRAGMENT_SPREAD -> "FRAGMENT_SPREAD"
-  | INLINE_FRAGMENT -> "INLINE_FRAGMENT"
-  | FRAGMENT_DEFINITION -> "FRAGMENT_DEFINITION"
-  | FRAGMENT_NAME -> "FRAGMENT_NAME"
-  | TYPE_CONDITION -> "TYPE_CONDITION"
-  | VARIABLE -> "VARIABLE"
-  | VARIABLE_DEFINITIONS -> "VARIABLE_DEFINITIONS"
-  | VARIABLE_DEFINITION -> "VARIABLE_DEFINITION"
-  | DEFAULT_VALUE -> "DEFAULT_VALUE"
-  | STRING_VALUE -> "STRING_VALUE"
-  | INT_VALUE -> "INT_VALUE"
-  | FLOAT_VALUE -> "FLOAT_VALUE"
-  | BOOLEAN_VALUE -> "BOOLEAN_VALUE"
-  | NULL_VALUE -> "NULL_VALUE"
-  | ENUM_VALUE -> "ENUM_VALUE"
-  | LIST_VALUE -> "LIST_VALUE"
-  | OBJECT_VALUE -> "OBJECT_VALUE"
-  | OBJECT_FIELD -> "OBJECT_FIELD"
-  | TYPE -> "TYPE"
-  | NAMED_TYPE -> "NAMED_TYPE"
-  | LIST_TYPE -> "LIST_TYPE"
-  | NON_NULL_TYPE -> "NON_NULL_TYPE"
-  | DIRECTIVES -> "DIRECTIVES"
-  | DIRECTIVE -> "DIRECTIVE"
-  | DESCRIPTION -> "DESCRIPTION"
-  | SCHEMA_DEFINITION -> "SCHEMA_DEFINITION"
-  | SCHEMA_EXTENSION -> "SCHEMA_EXTENSION"
-  | ROOT_OPERATION_TYPE_DEFINITION -> "ROOT_OPERATION_TYPE_DEFINITION"
-  | SCALAR_TYPE_DEFINITION -> "SCALAR_TYPE_DEFINITION"
-  | SCALAR_TYPE_EXTENSION -> "SCALAR_TYPE_EXTENSION"
-  | OBJECT_TYPE_DEFINITION -> "OBJECT_TYPE_DEFINITION"
-  | OBJECT_TYPE_EXTENSION -> "OBJECT_TYPE_EXTENSION"
-  | IMPLEMENTS_INTERFACES -> "IMPLEMENTS_INTERFACES"
-  | FIELDS_DEFINITION -> "FIELDS_DEFINITION"
-  | FIELD_DEFINITION -> "FIELD_DEFINITION"
-  | ARGUMENTS_DEFINITION -> "ARGUMENTS_DEFINITION"
-  | INPUT_VALUE_DEFINITION -> "INPUT_VALUE_DEFINITION"
-  | INTERFACE_TYPE_DEFINITION -> "INTERFACE_TYPE_DEFINITION"
-  | INTERFACE_TYPE_EXTENSION -> "INTERFACE_TYPE_EXTENSION"
-  | UNION_TYPE_DEFINITION -> "UNION_TYPE_DEFINITION"
-  | UNION_TYPE_EXTENSION -> "UNION_TYPE_EXTENSION"
-  | UNION_MEMBER_TYPES -> "UNION_MEMBER_TYPES"
-  | ENUM_TYPE_DEFINITION -> "ENUM_TYPE_DEFINITION"
-  | ENUM_TYPE_EXTENSION -> "ENUM_TYPE_EXTENSION"
-  | ENUM_VALUES_DEFINITION -> "ENUM_VALUES_DEFINITION"
-  | ENUM_VALUE_DEFINITION -> "ENUM_VALUE_DEFINITION"
-  | INPUT_OBJECT_TYPE_DEFINITION -> "INPUT_OBJECT_TYPE_DEFINITION"
-  | INPUT_OBJECT_TYPE_EXTENSION -> "INPUT_OBJECT_TYPE_EXTENSION"
-  | INPUT_FIELDS_DEFINITION -> "INPUT_FIELDS_DEFINITION"
-  | DIRECTIVE_DEFINITION -> "DIRECTIVE_DEFINITION"
-  | DIRECTIVE_LOCATIONS -> "DIRECTIVE_LOCATIONS"
-  | DIRECTIVE_LOCATION -> "DIRECTIVE_LOCATION"
+  | SK_WHITESPACE -> "WHITESPACE"
+  | SK_COMMENT -> "COMMENT"
+  | SK_COMMA -> "COMMA"
+  | SK_ERROR -> "ERROR"
+  | SK_IDENT -> "IDENT"
+  | SK_STRING -> "STRING"
+  | SK_INT -> "INT"
+  | SK_FLOAT -> "FLOAT"
+  | SK_BANG -> "BANG"
+  | SK_DOLLAR -> "DOLLAR"
+  | SK_AMP -> "AMP"
+  | SK_SPREAD -> "SPREAD"
+  | SK_COLON -> "COLON"
+  | SK_EQ -> "EQ"
+  | SK_AT -> "AT"
+  | SK_L_PAREN -> "L_PAREN"
+  | SK_R_PAREN -> "R_PAREN"
+  | SK_L_BRACK -> "L_BRACK"
+  | SK_R_BRACK -> "R_BRACK"
+  | SK_L_CURLY -> "L_CURLY"
+  | SK_R_CURLY -> "R_CURLY"
+  | SK_PIPE -> "PIPE"
+  | SK_query_KW -> "query_KW"
+  | SK_mutation_KW -> "mutation_KW"
+  | SK_subscription_KW -> "subscription_KW"
+  | SK_fragment_KW -> "fragment_KW"
+  | SK_on_KW -> "on_KW"
+  | SK_null_KW -> "null_KW"
+  | SK_true_KW -> "true_KW"
+  | SK_false_KW -> "false_KW"
+  | SK_extend_KW -> "extend_KW"
+  | SK_schema_KW -> "schema_KW"
+  | SK_scalar_KW -> "scalar_KW"
+  | SK_implements_KW -> "implements_KW"
+  | SK_interface_KW -> "interface_KW"
+  | SK_union_KW -> "union_KW"
+  | SK_enum_KW -> "enum_KW"
+  | SK_input_KW -> "input_KW"
+  | SK_directive_KW -> "directive_KW"
+  | SK_type_KW -> "type_KW"
+  | SK_repeatable_KW -> "repeatable_KW"
+  | SK_QUERY_KW -> "QUERY_KW"
+  | SK_MUTATION_KW -> "MUTATION_KW"
+  | SK_SUBSCRIPTION_KW -> "SUBSCRIPTION_KW"
+  | SK_FIELD_KW -> "FIELD_KW"
+  | SK_FRAGMENT_DEFINITION_KW -> "FRAGMENT_DEFINITION_KW"
+  | SK_FRAGMENT_SPREAD_KW -> "FRAGMENT_SPREAD_KW"
+  | SK_INLINE_FRAGMENT_KW -> "INLINE_FRAGMENT_KW"
+  | SK_VARIABLE_DEFINITION_KW -> "VARIABLE_DEFINITION_KW"
+  | SK_SCHEMA_KW -> "SCHEMA_KW"
+  | SK_SCALAR_KW -> "SCALAR_KW"
+  | SK_OBJECT_KW -> "OBJECT_KW"
+  | SK_FIELD_DEFINITION_KW -> "FIELD_DEFINITION_KW"
+  | SK_ARGUMENT_DEFINITION_KW -> "ARGUMENT_DEFINITION_KW"
+  | SK_INTERFACE_KW -> "INTERFACE_KW"
+  | SK_UNION_KW -> "UNION_KW"
+  | SK_ENUM_KW -> "ENUM_KW"
+  | SK_ENUM_VALUE_KW -> "ENUM_VALUE_KW"
+  | SK_INPUT_OBJECT_KW -> "INPUT_OBJECT_KW"
+  | SK_INPUT_FIELD_DEFINITION_KW -> "INPUT_FIELD_DEFINITION_KW"
+  | SK_DOCUMENT -> "DOCUMENT"
+  | SK_OPERATION_DEFINITION -> "OPERATION_DEFINITION"
+  | SK_OPERATION_TYPE -> "OPERATION_TYPE"
+  | SK_SELECTION_SET -> "SELECTION_SET"
+  | SK_FIELD -> "FIELD"
+  | SK_ALIAS -> "ALIAS"
+  | SK_NAME -> "NAME"
+  | SK_ARGUMENTS -> "ARGUMENTS"
+  | SK_ARGUMENT -> "ARGUMENT"
+  | SK_FRAGMENT_SPREAD -> "FRAGMENT_SPREAD"
+  | SK_INLINE_FRAGMENT -> "INLINE_FRAGMENT"
+  | SK_FRAGMENT_DEFINITION -> "FRAGMENT_DEFINITION"
+  | SK_FRAGMENT_NAME -> "FRAGMENT_NAME"
+  | SK_TYPE_CONDITION -> "TYPE_CONDITION"
+  | SK_VARIABLE -> "VARIABLE"
+  | SK_VARIABLE_DEFINITIONS -> "VARIABLE_DEFINITIONS"
+  | SK_VARIABLE_DEFINITION -> "VARIABLE_DEFINITION"
+  | SK_DEFAULT_VALUE -> "DEFAULT_VALUE"
+  | SK_STRING_VALUE -> "STRING_VALUE"
+  | SK_INT_VALUE -> "INT_VALUE"
+  | SK_FLOAT_VALUE -> "FLOAT_VALUE"
+  | SK_BOOLEAN_VALUE -> "BOOLEAN_VALUE"
+  | SK_NULL_VALUE -> "NULL_VALUE"
+  | SK_ENUM_VALUE -> "ENUM_VALUE"
+  | SK_LIST_VALUE -> "LIST_VALUE"
+  | SK_OBJECT_VALUE -> "OBJECT_VALUE"
+  | SK_OBJECT_FIELD -> "OBJECT_FIELD"
+  | SK_TYPE -> "TYPE"
+  | SK_NAMED_TYPE -> "NAMED_TYPE"
+  | SK_LIST_TYPE -> "LIST_TYPE"
+  | SK_NON_NULL_TYPE -> "NON_NULL_TYPE"
+  | SK_DIRECTIVES -> "DIRECTIVES"
+  | SK_DIRECTIVE -> "DIRECTIVE"
+  | SK_DESCRIPTION -> "DESCRIPTION"
+  | SK_SCHEMA_DEFINITION -> "SCHEMA_DEFINITION"
+  | SK_SCHEMA_EXTENSION -> "SCHEMA_EXTENSION"
+  | SK_ROOT_OPERATION_TYPE_DEFINITION -> "ROOT_OPERATION_TYPE_DEFINITION"
+  | SK_SCALAR_TYPE_DEFINITION -> "SCALAR_TYPE_DEFINITION"
+  | SK_SCALAR_TYPE_EXTENSION -> "SCALAR_TYPE_EXTENSION"
+  | SK_OBJECT_TYPE_DEFINITION -> "OBJECT_TYPE_DEFINITION"
+  | SK_OBJECT_TYPE_EXTENSION -> "OBJECT_TYPE_EXTENSION"
+  | SK_IMPLEMENTS_INTERFACES -> "IMPLEMENTS_INTERFACES"
+  | SK_FIELDS_DEFINITION -> "FIELDS_DEFINITION"
+  | SK_FIELD_DEFINITION -> "FIELD_DEFINITION"
+  | SK_ARGUMENTS_DEFINITION -> "ARGUMENTS_DEFINITION"
+  | SK_INPUT_VALUE_DEFINITION -> "INPUT_VALUE_DEFINITION"
+  | SK_INTERFACE_TYPE_DEFINITION -> "INTERFACE_TYPE_DEFINITION"
+  | SK_INTERFACE_TYPE_EXTENSION -> "INTERFACE_TYPE_EXTENSION"
+  | SK_UNION_TYPE_DEFINITION -> "UNION_TYPE_DEFINITION"
+  | SK_UNION_TYPE_EXTENSION -> "UNION_TYPE_EXTENSION"
+  | SK_UNION_MEMBER_TYPES -> "UNION_MEMBER_TYPES"
+  | SK_ENUM_TYPE_DEFINITION -> "ENUM_TYPE_DEFINITION"
+  | SK_ENUM_TYPE_EXTENSION -> "ENUM_TYPE_EXTENSION"
+  | SK_ENUM_VALUES_DEFINITION -> "ENUM_VALUES_DEFINITION"
+  | SK_ENUM_VALUE_DEFINITION -> "ENUM_VALUE_DEFINITION"
+  | SK_INPUT_OBJECT_TYPE_DEFINITION -> "INPUT_OBJECT_TYPE_DEFINITION"
+  | SK_INPUT_OBJECT_TYPE_EXTENSION -> "INPUT_OBJECT_TYPE_EXTENSION"
+  | SK_INPUT_FIELDS_DEFINITION -> "INPUT_FIELDS_DEFINITION"
+  | SK_DIRECTIVE_DEFINITION -> "DIRECTIVE_DEFINITION"
+  | SK_DIRECTIVE_LOCATIONS -> "DIRECTIVE_LOCATIONS"
+  | SK_DIRECTIVE_LOCATION -> "DIRECTIVE_LOCATION"
 
 let tkind_code (s : string) : int =
   match s with
@@ -210,7 +210,7 @@ let c07_parse line =
   let o = run_case line in
   status o (fun () ->
     if o.pw_errors <> [] then "ok err" else
-    let sigl = List.filter (fun (k, _) -> match k with WHITESPACE | COMMENT | COMMA -> false | _ -> true)
+    let sigl = List.filter (fun (k, _) -> match k with SK_WHITESPACE | SK_COMMENT | SK_COMMA -> false | _ -> true)
                  o.pw_leaves in
     let texts = List.map (fun (_, t) -> utf8_of_codepoints (List.map int_of_n t)) sigl in
     "ok noerr sig=" ^ hex_of_bytes (String.concat " " texts))
